@@ -28,6 +28,7 @@ EXPLANATION = (
     "frames; inverse laws on values."
     ' (R13) a transformation that re-keys the columns mapping with keys computed from a caller-supplied mapping (rename_columns) raises, before the comprehension, under a test for repeated values of that mapping - otherwise two columns given one new name collapse silently.'
     ' (R14) no transformation method turns a caller-supplied parameter into a sequence through set(...) (the order of the labels would be their hash order, which changes between interpreter runs).'
+    ' (R15) no transformation method applies an inherited column transformation (remove_columns, ...) to the index object: a MultiIndex keeps its levels in `.indexes` as well, which such a call leaves stale; reset_index re-builds the index from the levels that stay and hands a single remaining level on as it is (R3 accepts that form).'
 )
 LEVEL_RULE = "one obligation per (method) / (constructor parameter) / (constructor call, attribute) / raise"
 FLOORS = {"R1": 10, "R2": 28, "R3": 20, "R4": 6, "R5": 10, "R6": 2, "R7": 1, "R8": 1, "R9": 2, "R10": 1, "R11": 1, "R12": 8}
@@ -208,6 +209,12 @@ def r3_forwarding(ctx):
                        (f"`{a}` of the source component `{src}` is not passed to {target}(...): the attribute is lost by the transformation"
                         if v is None else f"{a}={txt(v)}"), f.loc(c))
         if n_site == 0:
+            # reset_index may hand the remaining level on as it is (taken from `<multiindex>.indexes`) instead of re-building an Index
+            reuses = target == "Index" and f.name == "reset_index" and any(isinstance(x, ast.Attribute) and x.attr == "indexes" for x in ast.walk(f.node))
+            if reuses:
+                ctx.ob("R3", f, f"{f.short}: the remaining index level is handed on as it is (no re-built {target})", True,
+                       "taken from `.indexes`: every attribute of the level is kept")
+                continue
             raise AnalysisError(f"{f.qual}: no {target}(...) conversion found")
 
 
@@ -622,10 +629,35 @@ def r14_label_order_not_taken_from_a_set(ctx):
         raise AnalysisError(f"transformation methods found: {n}")
 
 
+def r15_multiindex_not_transformed_through_its_columns(ctx):
+    """A MultiIndex keeps its levels twice: `.indexes` (what `names`, repr, strategies and reset_index read) and the
+    `.columns` it inherits from DataFrameSchema (what validation reads).  The inherited column transformations
+    (remove_columns, add_columns, rename_columns, ...) change `.columns` only; applied to a MultiIndex they leave
+    `.indexes` / `.names` stale - after reset_index(level=['i1']) of a 3-level index the schema still names i1, differs from
+    the hand-built schema and a second reset_index raises.  Decided: no schema transformation calls a column
+    transformation on the index object; it re-builds the MultiIndex from the remaining `.indexes`."""
+    m = ctx.ix.module("pandera/api/dataframe/container.py")
+    n = 0
+    for f in m.all_functions:
+        if f.cls is None or f.name not in TRANSFORMS:
+            continue
+        n += 1
+        bad = [c for c in calls_in(f.node) if callee_last(c) in TRANSFORMS and isinstance(c.func, ast.Attribute)
+               and any(isinstance(x, ast.Attribute) and x.attr == "index" for x in ast.walk(c.func.value))]
+        ctx.touched(f)
+        ctx.ob("R15", f, f"{f.short}: the index component is not transformed through the inherited column operations", not bad,
+               "no column transformation is applied to the index" if not bad else
+               f"`{txt(bad[0])[:60]}` changes the columns of the MultiIndex but not its level list: reset_index(level=['i1']) of a 3-level index keeps "
+               "index.names == ['i1', 'i2', 'i3'], the result differs from the hand-built schema and reset_index() on it raises", f.loc(bad[0] if bad else f.node))
+    if n < 5:
+        raise AnalysisError(f"transformation methods found: {n}")
+
+
 def run(ctx):
     r12_fresh_result(ctx)
     r13_computed_keys_are_distinct(ctx)
     r14_label_order_not_taken_from_a_set(ctx)
+    r15_multiindex_not_transformed_through_its_columns(ctx)
     r11_rename_reaches_unique(ctx)
     r9_set_name_scope(ctx)
     r10_names_by_none_only(ctx)
